@@ -29,6 +29,10 @@ def cases(tier, seed):
                 out.append({"name": "cos.race/%s/%s/resub=%s" % (direction, st or "-", int(resub)), "kind": "sweep",
                             "dir": direction, "earlier": st, "resub": resub,
                             "cap": 40 if tier == "quick" else None})
+    for st in ("ppp", "prd", "pppppp"):
+        for direction in ("shutdown|complete", "shutdown|submit", "submit|shutdown"):
+            out.append({"name": "cos.race-instr/%s/%s" % (direction, st), "kind": "sweep", "dir": direction, "earlier": st, "resub": False,
+                        "cap": None, "gran": "instr"})
     for inner in ("map", "retry", "throttle", "poll", "timeout", "flat_map"):
         for direction in ("submit|shutdown", "shutdown|submit"):
             out.append({"name": "cos.layered/%s/%s" % (inner, direction), "kind": "layered", "inner": inner, "dir": direction,
@@ -293,6 +297,6 @@ def run_case(case, res):
         Sweep(LayeredScenario(case), res, "vt", case["name"]).run(case.get("cap"), rng)
     elif case["kind"] == "sweep":
         rng = random.Random("c10/%s/%s" % (case["seed"], case["name"]))
-        Sweep(CosScenario(case), res, "rt", case["name"]).run(case.get("cap"), rng)
+        Sweep(CosScenario(case), res, "rt", case["name"], gran=case.get("gran")).run(case.get("cap"), rng)
     else:
         run_fuzz(case, res)
